@@ -69,7 +69,7 @@ def plan(tier, seed):
 
 def run_one(args, keep=None):
     label, tail = args
-    lines, hrc, err = vlib.pipe_to_driver([vlib.hbin(BIN)] + tail, timeout=900, keep=keep)
+    lines, hrc, err = vlib.pipe_to_driver([vlib.hbin(BIN)] + tail, timeout=3000, keep=keep)
     r = vlib.parse_driver(lines)
     r["label"], r["tail"], r["hrc"], r["err"] = label, tail, hrc, err
     return r
@@ -134,7 +134,7 @@ def last_block(path):
     return block
 
 
-def run_case(case, timeout=60):
+def run_case(case, timeout=120):
     """Runs one case through harness and driver; returns the parsed driver output."""
     path = os.path.join(vlib.TMP, f"conc-{os.getpid()}-{time.time_ns()}.case")
     with open(path, "w") as f:
@@ -302,6 +302,12 @@ def check(prop, tier, seed, t0):
     else:
         with ThreadPoolExecutor(max_workers=14) as ex:
             results = list(ex.map(run_one, plan(tier, seed)))
+        # a watchdog timeout may be an artefact of a heavily loaded machine: run the invocation
+        # once more, alone; only a timeout that repeats is reported (with the schedule so far)
+        for i, r in enumerate(results):
+            if r["hang"]:
+                results[i] = run_one((r["label"], r["tail"]))
+                results[i]["retried_after_timeout"] = True
         violations += report_failures(prop, tier, seed, results)
     stats = {}
     for r in results:
